@@ -310,11 +310,18 @@ type sim struct {
 	pendingReward map[string]*simBatch
 	mustEnd       []*simBatch
 	stallD        time.Duration
-	quanta        int
-	digest        [32]byte
-	chains        map[string][32]byte
-	cancelled     map[chan struct{}]bool
-	maxLive       int
+	// stallProbe names what the pending dispatcher stall is for.
+	stallProbe string
+	// pairStale: the request whose answer was handed to a worker while the
+	// dispatcher was busy recording another success of the same batch and
+	// the batch's hard deadline lay before the end of that stall: the batch
+	// ends before the dispatcher sees this second success.
+	pairStale *simReq
+	quanta    int
+	digest    [32]byte
+	chains    map[string][32]byte
+	cancelled map[chan struct{}]bool
+	maxLive   int
 }
 
 // scoreOf is the oracle's model of a peer's record: 4 for a peer without
@@ -709,7 +716,12 @@ func (s *sim) processEvents() {
 			}
 			if e.fin {
 				r.finished = true
-				if !b.hasVerdict {
+				if r == s.pairStale && !b.hasVerdict {
+					// The dispatcher was busy when this answer came
+					// in and ends the batch (hard deadline) before
+					// it takes this result: nothing to record.
+					rc.Probe("answer_parked_while_batch_timed_out")
+				} else if !b.hasVerdict {
 					// The batch was alive when this answer came
 					// in, so it counts on the peer's record.
 					s.expRewards[e.addr]++
@@ -864,8 +876,98 @@ func (s *sim) finalPhase() {
 			"a fresh single-request batch answered at once by a responsive peer failed with %q", fb.verdicts[0])
 	}
 	rc.Probe("fresh_batch_succeeded")
+
+	// Every connected peer is still usable. First let everything that is
+	// still at a peer or queued (left-overs of ended batches) run out: the
+	// peers answer whatever they hold, and 70 simulated seconds (more than
+	// the longest request timeout) pass without anything being handed out.
+	quietRounds := 0
+	for i := 0; i < 6*len(s.reqs)+30 && quietRounds < 1; i++ {
+		if answerHolders() {
+			continue
+		}
+		before := s.offersTotal
+		time.Sleep(70 * time.Second)
+		s.settle("spread-wait")
+		if s.offersTotal == before {
+			quietRounds++
+		}
+	}
+	// Now a batch with one request per connected peer: the dispatcher gives
+	// a peer one request at a time, so no request may stay queued while a
+	// connected peer that holds nothing was handed nothing.
+	// Justification: the property says unanswered requests are (re-)issued
+	// to an available peer and that finished, cancelled or timed-out batches
+	// never block later ones; a connected peer that has answered or failed
+	// everything it was given is available, and if it were the only peer the
+	// waiting request's batch would get no result.
+	conn := s.connected()
+	offersBefore := map[*simPeer]int{}
+	s.mu.Lock()
+	for _, p := range conn {
+		offersBefore[p] = p.nOffers
+	}
+	s.mu.Unlock()
+	sb := s.submit(len(conn), true)
+	s.settle("spread-submit")
+	waiting := 0
+	for _, r := range sb.reqs {
+		if len(r.offers) == 0 {
+			waiting++
+		}
+	}
+	if waiting > 0 && !sb.hasVerdict {
+		for _, p := range conn {
+			s.mu.Lock()
+			n, lr, lb, ld := p.nOffers, lastReqID(p), lastBatchID(p), lastBatchDesc(p)
+			s.mu.Unlock()
+			if n == offersBefore[p] {
+				rc.Failf("available-peer-unused", s.facts(),
+					"%d of %d requests of a fresh batch stay queued although connected peer %s#%d holds no request and was handed none (it was given %d requests earlier, the last one was request %d of batch %d [%s]): the dispatcher no longer uses this peer (%s)",
+					waiting, len(sb.reqs), p.addr, p.id, n, lr, lb, ld, s.stuckSummary())
+			}
+		}
+	}
+	if len(conn) > 1 {
+		rc.Probe("spread_batch_over_several_peers")
+	}
+	for i := 0; i < 8+2*len(conn) && !sb.hasVerdict; i++ {
+		if !answerHolders() {
+			time.Sleep(33 * time.Second)
+			s.settle("spread-sleep")
+		}
+	}
+	if !sb.hasVerdict {
+		rc.Failf("later-batch-blocked", s.facts(),
+			"a fresh batch with one request per connected peer got no result from responsive peers after earlier batches had finished (%s)", s.stuckSummary())
+	}
+	if sb.verdicts[0] != nil {
+		rc.Failf("later-batch-failed", s.factsWith("err", errName(sb.verdicts[0])),
+			"a fresh batch with one request per connected peer, answered at once by responsive peers, failed with %q", sb.verdicts[0])
+	}
 	s.checkSuccessesRecorded()
 	s.stop()
+}
+
+func lastReqID(p *simPeer) int {
+	if p.cur == nil {
+		return -1
+	}
+	return p.cur.id
+}
+
+func lastBatchID(p *simPeer) int {
+	if p.cur == nil {
+		return -1
+	}
+	return p.cur.batch.id
+}
+
+func lastBatchDesc(p *simPeer) string {
+	if p.cur == nil {
+		return ""
+	}
+	return p.cur.batch.desc
 }
 
 // justify decides whether an error verdict is one of the outcomes the
@@ -996,7 +1098,7 @@ func (s *sim) settle(what string) {
 	s.mu.Unlock()
 	if st {
 		// The dispatcher is in its tape-decided stall: let that time pass.
-		s.rc.Probe("dispatcher_stalled_across_idle_deadline")
+		s.rc.Probe(s.stallProbe)
 		time.Sleep(s.stallD)
 		synctest.Wait()
 		s.mu.Lock()
@@ -1011,6 +1113,7 @@ func (s *sim) settle(what string) {
 	s.stallNext = 0
 	s.mu.Unlock()
 	s.processEvents()
+	s.pairStale = nil
 	s.pollVerdicts()
 	s.checkTimers()
 	s.rc.Res.Steps++
@@ -1198,13 +1301,14 @@ func runC12(rc *core.RunCtx) {
 	wSleep := 9 * (1 + tp.Intn(3))
 	wStall := tp.Intn(3)
 	reuseAddr := tp.Intn(3)
+	wPair := 7 * tp.Intn(3)
 	s.faulty = wDisc > 0 || wReplace > 0 || reuseAddr > 0
 	type act struct {
 		name string
 		w    int
 	}
 	acts := []act{{"answer", 30}, {"submit", 14}, {"connect", 10}, {"sleep", wSleep}, {"progress", wProgress},
-		{"junk", wJunk}, {"cancel", wCancel}, {"disconnect", wDisc}, {"replace", wReplace}, {"stop", wStop}}
+		{"junk", wJunk}, {"cancel", wCancel}, {"disconnect", wDisc}, {"replace", wReplace}, {"stop", wStop}, {"pair", wPair}}
 	rc.Logf("run: steps=%d maxReq=%d maxPeers=%d weights=%v reuseAddr=%d", steps, maxReq, maxPeers, acts, reuseAddr)
 
 	// holders returns connected peers that were given a request which has
@@ -1293,7 +1397,7 @@ func runC12(rc *core.RunCtx) {
 					s.mu.Lock()
 					s.stallNext = d
 					s.mu.Unlock()
-					s.stallD = d
+					s.stallD, s.stallProbe = d, "dispatcher_stalled_across_idle_deadline"
 					rc.Logf("dispatcher will stall %v while recording the next success", d)
 				}
 			}
@@ -1446,6 +1550,129 @@ func runC12(rc *core.RunCtx) {
 			}
 			s.cancelled[b.cancel] = true
 			close(b.cancel)
+		case "pair":
+			// Two peers hold different unanswered requests of one
+			// live batch. The first answers; while the dispatcher is
+			// busy recording that success (tape-decided stall inside
+			// the ranking call) the second answers too, so its worker
+			// has a finished job and waits for the dispatcher to take
+			// the result. Variants: the stall ends just past the
+			// batch's hard deadline (the dispatcher then times the
+			// batch out and tears it down with that result still
+			// waiting), the batch's cancel channel is closed during
+			// the stall, or neither. The dispatcher is blocked for the
+			// whole step, so the order of the two answers is fixed.
+			type pr struct {
+				a, b   *simPeer
+				ra, rb *simReq
+			}
+			held := func(p *simPeer) *simReq {
+				s.mu.Lock()
+				r := p.cur
+				s.mu.Unlock()
+				if r == nil || r.finished || r.batch.hasVerdict || len(r.offers) == 0 || r.offers[len(r.offers)-1].peer != p {
+					return nil
+				}
+				return r
+			}
+			var cs []pr
+			h := holders()
+			for _, pa := range h {
+				for _, pb := range h {
+					ra, rb := held(pa), held(pb)
+					if pa != pb && pa.addr != pb.addr && ra != nil && rb != nil && ra != rb && ra.batch == rb.batch {
+						cs = append(cs, pr{pa, pb, ra, rb})
+					}
+				}
+			}
+			if len(cs) == 0 {
+				name = "noop"
+				break
+			}
+			c := cs[tp.Intn(len(cs))]
+			b := c.ra.batch
+			now := s.now()
+			deadline := b.submitAt + b.hard
+			// quiet: between now and the end of a stall of length d no
+			// idle timer of a live batch fires and the hard deadline
+			// of this batch is not within 0.1 ms of the stall's end.
+			// (Otherwise the dispatcher would come back to several
+			// ready events at once and Go's select would pick one at
+			// random.)
+			quiet := func(d time.Duration) bool {
+				for _, lb := range s.liveBatches() {
+					if lb.prog > 0 && lb.lastArmAt+lb.prog <= now+d+5*time.Millisecond {
+						return false
+					}
+				}
+				gap := deadline - (now + d)
+				return gap < -100*time.Microsecond || gap > 100*time.Microsecond
+			}
+			d, variant := time.Millisecond, "plain"
+			switch v := tp.Intn(4); {
+			case v == 1 || v == 2:
+				dd := time.Millisecond
+				if deadline > now {
+					dd = deadline - now + time.Millisecond
+				}
+				if dd <= 70*time.Second && quiet(dd) {
+					d, variant = dd, "timeout"
+				}
+			case v == 3:
+				if b.cancel != nil && !s.cancelled[b.cancel] {
+					variant = "cancel"
+				}
+			}
+			if !quiet(d) {
+				name = "noop"
+				break
+			}
+			crossed := now+d > deadline
+			s.mu.Lock()
+			s.stallNext = d
+			c.a.curFinalSent = true
+			s.mu.Unlock()
+			s.stallD, s.stallProbe = d, "second_answer_while_dispatcher_busy"
+			rc.Logf("pair (%s): dispatcher will stall %v while recording the first success; batch %d deadline %v", variant, d, b.id, deadline)
+			send(c.a, respFor(c.ra, kFinal), fmt.Sprintf("final answer to request %d", c.ra.id))
+			synctest.Wait()
+			s.mu.Lock()
+			st := s.stalling
+			if !st {
+				s.stallNext = 0
+			}
+			s.mu.Unlock()
+			if !st {
+				rc.Probe("pair_first_answer_not_being_recorded")
+				break
+			}
+			if crossed {
+				// The first success is processed when the stall ends,
+				// past the hard deadline: the batch must end in this
+				// step, and it ends before the dispatcher takes the
+				// second result.
+				s.pairStale = c.rb
+				s.mustEnd = append(s.mustEnd, b)
+			}
+			kind := kFinal
+			if tp.Chance(1, 4) {
+				kind = kFinalNoProg
+			}
+			s.mu.Lock()
+			c.b.curFinalSent = true
+			s.mu.Unlock()
+			send(c.b, respFor(c.rb, kind), fmt.Sprintf("final answer to request %d (dispatcher busy)", c.rb.id))
+			synctest.Wait()
+			if variant == "cancel" {
+				rc.Logf("cancel batch %d (dispatcher busy)", b.id)
+				s.cancelled[b.cancel] = true
+				close(b.cancel)
+				synctest.Wait()
+			}
+			if crossed {
+				variant = "timeout"
+			}
+			rc.Probe("pair_" + variant + "_while_result_waits")
 		case "sleep":
 			d := sleepChoices[tp.Intn(len(sleepChoices))]
 			rc.Logf("sleep %v (t=%v)", d, s.now())
